@@ -53,7 +53,7 @@ func (c Cfg) String() string {
 var (
 	protoSels = []string{"nil", "none", "all", "second", "slice-small", "slice-big", "custom", "equal"}
 	extSels   = []string{"nil", "extension-all", "extension-none", "extension-custom", "negotiate-accept", "negotiate-decline", "negotiate-error", "negotiate-wsflate"}
-	hdrKinds  = []string{"nil", "string", "bytes", "func", "http", "bytes-large", "func-large", "http-large"}
+	hdrKinds  = []string{"nil", "string", "bytes", "func", "http", "bytes-large", "func-large", "http-large", "http-multi"}
 	rejects   = []string{"", "OnRequest", "OnHost", "OnHeader", "OnBeforeUpgrade"}
 	rejKinds  = []string{"plain", "custom", "nostatus", "plain-slice", "plain-struct", "plain-percent", "custom-percent"}
 
@@ -182,6 +182,11 @@ func extraHeader(kind string) (ws.HandshakeHeader, http.Header) {
 			}
 			return n, nil
 		}), nil
+	case "http-multi":
+		// several values under one field name (two cookies) and a key that is not in canonical form: an http.Header
+		// is written out as http.Header.Write does - one line per value, keys as they are
+		h := http.Header{"X-Extra": []string{"one"}, "Set-Cookie": []string{"a=1", "b=2", "c=3"}, "x-lower": []string{"kept"}}
+		return ws.HandshakeHeaderHTTP(h), h
 	case "http-large":
 		h := http.Header{"X-Extra": []string{"one"}, "X-Pad": []string{extraPad}, "X-After": []string{"pad"}}
 		return ws.HandshakeHeaderHTTP(h), h
@@ -198,6 +203,9 @@ func extraOK(kind string, h http.Header) bool {
 	}
 	if h.Get("X-Extra") != "one" {
 		return false
+	}
+	if kind == "http-multi" {
+		return fmt.Sprint(h.Values("Set-Cookie")) == "[a=1 b=2 c=3]" && h.Get("X-Lower") == "kept"
 	}
 	if strings.HasSuffix(kind, "-large") {
 		return h.Get("X-Pad") == extraPad && h.Get("X-After") == "pad"
@@ -395,6 +403,10 @@ func startHTTP() {
 					if strings.HasSuffix(cfg.Header, "-large") {
 						u.Header.Set("X-Pad", extraPad)
 						u.Header.Set("X-After", "pad")
+					}
+					if cfg.Header == "http-multi" {
+						u.Header["Set-Cookie"] = []string{"a=1", "b=2", "c=3"}
+						u.Header["x-lower"] = []string{"kept"}
 					}
 				}
 				if cfg.HTTPTimeout {
